@@ -310,5 +310,3 @@ func TestC16(t *testing.T) {
 		Thorough:  12000,
 	})
 }
-
-var _ = sort.Strings
